@@ -2,9 +2,11 @@ package gossipsim
 
 import (
 	"context"
+	"database/sql"
 	"errors"
 	"fmt"
 	"net"
+	"os"
 	"sync"
 	"testing/synctest"
 	"time"
@@ -24,6 +26,7 @@ import (
 	"github.com/lightningnetwork/lnd/lnpeer"
 	"github.com/lightningnetwork/lnd/lnwire"
 	"github.com/lightningnetwork/lnd/routing/route"
+	"github.com/lightningnetwork/lnd/sqldb"
 	"github.com/lightningnetwork/lnd/ticker"
 
 	"verif/simcore"
@@ -41,9 +44,13 @@ const (
 	// message for the same channel is waiting for that mutex. A zero interval
 	// is what graphdb.DefaultOptions() uses.
 	batchCommit = 0
-	trickleDelay  = 30 * time.Second
+	trickleDelay  = 90 * time.Second // lnd default
 	startHeight   = 100
 )
+
+// sqlTemplate is an empty, fully migrated sqlite graph database (bytes of
+// the file), built on first use.
+var sqlTemplate []byte
 
 // emitted is one gossip message the node under test sent out.
 type emitted struct {
@@ -135,6 +142,7 @@ type World struct {
 	chain *SimChain
 	kv    *simcore.SimKV
 	aux   *simcore.SimKV
+	sql   *sqldb.SqliteStore
 
 	self     *uNode
 	selfWire []byte
@@ -151,6 +159,26 @@ type World struct {
 	out      []emitted
 	activity int
 	txs      int
+	toFail   int
+}
+
+// failWrites makes the next n write transactions of the graph database fail.
+func (w *World) failWrites(n int) {
+	w.mu.Lock()
+	w.toFail = n
+	w.mu.Unlock()
+	w.kv.FiredFail = 0
+}
+
+// stopFailing disarms write failures and returns how many fired.
+func (w *World) stopFailing() int {
+	w.mu.Lock()
+	w.toFail = 0
+	w.mu.Unlock()
+	w.kv.Disarm()
+	n := w.kv.FiredFail
+	w.kv.FiredFail = 0
+	return n
 }
 
 func (w *World) bump() {
@@ -203,7 +231,7 @@ func (w *World) settle() {
 
 // NewWorld builds chain, graph database, graph builder and gossiper. Must be
 // called inside the synctest bubble.
-func NewWorld(r *simcore.Run, chain *SimChain, self *uNode, npeers int, syncPeers int) *World {
+func NewWorld(r *simcore.Run, chain *SimChain, self *uNode, npeers int, syncPeers int, sqlBackend bool, banThreshold uint64) *World {
 	w := &World{r: r, chain: chain, self: self}
 	w.ctx, w.cancel = context.WithCancel(context.Background())
 
@@ -217,12 +245,58 @@ func NewWorld(r *simcore.Run, chain *SimChain, self *uNode, npeers int, syncPeer
 		w.txs++
 		w.mu.Unlock()
 	}
-	w.kv.OnTx = count
+	w.kv.OnTx = func(write bool) {
+		count(write)
+		if !write {
+			return
+		}
+		w.mu.Lock()
+		arm := w.toFail > 0
+		if arm {
+			w.toFail--
+		}
+		w.mu.Unlock()
+		if arm {
+			w.kv.FailWrite(1)
+		}
+	}
 	w.aux.OnTx = count
 
-	store, err := graphdb.NewKVStore(w.kv, graphdb.WithBatchCommitInterval(batchCommit))
+	// Cache sizes are shrunk from the daemon defaults (their zeroing dominates
+	// the cost of a run); with at most four channels they never evict.
+	opts := []graphdb.StoreOptionModifier{graphdb.WithBatchCommitInterval(batchCommit),
+		graphdb.WithRejectCacheSize(256), graphdb.WithChannelCacheSize(256)}
+	var store graphdb.Store
+	if sqlBackend {
+		// Applying all schema migrations costs ~0.4s; do it once per
+		// process and start every run from a copy of the empty schema.
+		if sqlTemplate == nil {
+			tp := r.SubDir("sqltpl") + "/t.sqlite"
+			tdb, err := sqldb.NewSqliteStore(&sqldb.SqliteConfig{}, tp)
+			r.Must(err, "open sqlite template")
+			r.Must(tdb.ApplyAllMigrations(w.ctx, sqldb.GetMigrations()), "sqlite migrations")
+			r.Must(tdb.DB.Close(), "close sqlite template")
+			sqlTemplate, err = os.ReadFile(tp)
+			r.Must(err, "read sqlite template")
+		}
+		path := r.SubDir("sql") + "/graph.sqlite"
+		r.Must(os.WriteFile(path, sqlTemplate, 0o600), "copy sqlite template")
+		w.sql, err = sqldb.NewSqliteStore(&sqldb.SqliteConfig{SkipMigrations: true}, path)
+		r.Must(err, "open sqlite")
+		base := w.sql.BaseDB
+		exec := sqldb.NewTransactionExecutor(base, func(tx *sql.Tx) graphdb.SQLQueries {
+			return base.WithTx(tx)
+		})
+		store, err = graphdb.NewSQLStore(&graphdb.SQLStoreConfig{
+			ChainHash: *chaincfg.MainNetParams.GenesisHash,
+			QueryCfg:  sqldb.DefaultSQLiteConfig(),
+		}, exec, opts...)
+	} else {
+		store, err = graphdb.NewKVStore(w.kv, opts...)
+	}
 	r.Must(err, "graph store")
-	w.cg, err = graphdb.NewChannelGraph(store, graphdb.WithSyncGraphCachePopulation())
+	w.cg, err = graphdb.NewChannelGraph(store, graphdb.WithSyncGraphCachePopulation(),
+		graphdb.WithPreAllocCacheNumNodes(32))
 	r.Must(err, "channel graph")
 	r.Must(w.cg.Start(), "graph start")
 	w.vg = graphdb.NewVersionedGraph(w.cg, lnwire.GossipVersion1)
@@ -309,7 +383,7 @@ func NewWorld(r *simcore.Run, chain *SimChain, self *uNode, npeers int, syncPeer
 		},
 		IsStillZombieChannel: w.builder.IsZombieChannel,
 		AssumeChannelValid:   false,
-		BanThreshold:         discovery.DefaultBanThreshold,
+		BanThreshold:         banThreshold,
 	}, &keychain.KeyDescriptor{PubKey: self.priv.PubKey(), KeyLocator: keychain.KeyLocator{Family: keychain.KeyFamilyNodeKey}})
 	r.Must(w.gsp.Start(), "gossiper start")
 
@@ -415,5 +489,8 @@ func (w *World) Stop() {
 	}
 	if w.aux != nil {
 		w.aux.Close()
+	}
+	if w.sql != nil {
+		w.sql.DB.Close()
 	}
 }
